@@ -32,7 +32,11 @@ HOSTILE = ['', '.', '..', '...', '/', 'a/', '/a', 'a//b', '../x', '..\\x',
            'a\uff0f../bob', '\uff0fdev\uff0fshm', 'Box/\u2025/\u2025/bob',
            '\u2215bob', '..\u2044bob', '\u2025\u2215bob', 'bo\u0062',
            '\u3002\u3002/bob', '\ufe52\ufe52/bob', '\u2026/bob',
-           'Box/\uff0e\uff0e/\uff0e\uff0e/foreign', '\u2025/foreign']
+           'Box/\uff0e\uff0e/\uff0e\uff0e/foreign', '\u2025/foreign',
+           # names that a case mapping turns into INBOX
+           '\u0131nbox', '\u0131NBOX', '\u0130NBOX', 'inbo\u03c7',
+           '\uff29\uff2e\uff22\uff2f\uff38', 'INBOX\u200b', 'I\u0307NBOX',
+           '\u0131nbox/', '\u0131nbox/Box']
 PLAIN = ['Box', 'Box/Sub', 'Work', 'a', 'a/b']
 
 
@@ -269,7 +273,7 @@ class C08(Profile):
             'commands per case, every command that takes a mailbox, '
             'reference or pattern (CREATE, DELETE, RENAME both positions, '
             'SELECT, EXAMINE, STATUS, SUBSCRIBE, UNSUBSCRIBE, LIST, LSUB, '
-            'APPEND, COPY, MOVE) with names from 94 hostile shapes (empty, '
+            'APPEND, COPY, MOVE) with names from 103 hostile shapes (empty, '
             '., .., leading/trailing/doubled delimiters, ../bob, path '
             'separators, NUL, 300 bytes, non-ASCII, modified-UTF-7 spellings '
             'of "..", Unicode look-alikes of . .. and /, names of maildir '
